@@ -9,7 +9,7 @@ use std::path::PathBuf;
 
 pub static PROP: Prop = Prop {
     id: "C18",
-    rule: "module graphs of 2-6 modules written to disk, decoded from a proptest choice vector: each module is a file, a directory with main.koto, or both (the file must win); its top level prints a marker, imports other modules (edges may form cycles) through `import m`, `import m as a`, `from m import v`, `from m import v as w`, `from m import *` or a missing name, exports a value computed from what it imported, reassigns the exported name locally (must not alter the export), reads the export from a function defined before the export, optionally defines a passing or failing @test and a @main (which may itself throw), and optionally throws after exporting. The main script imports a random sequence of modules (with repeats) each inside try/catch, prints what it got, and is run twice on the same runtime; settings run_import_tests and export_top_level_ids are drawn per case. The complete stdout (which top levels, tests and @main functions ran, in which order, how often), the imported values and Koto::exports() are compared with a reference model of the import algorithm (run once, tests then @main, cycle = error, failed module leaves nothing cached and can be retried, completed dependencies stay cached). Non-trivial: the graph has a cycle, a failing module, a repeated import or a file/directory conflict.",
+    rule: "module graphs of 2-6 modules written to disk, decoded from a proptest choice vector: each module is a file, a directory with main.koto, or both (the file must win); its top level prints a marker, imports other modules (edges may form cycles) through `import m`, `import m as a`, `from m import v`, `from m import v as w`, `from m import *` or a missing name, exports a value computed from what it imported, reassigns the exported name locally (must not alter the export), reads the export from a function defined before the export, optionally defines a passing or failing @test and a @main (which may itself throw), and optionally throws after exporting. The main script imports a random sequence of modules (with repeats) each inside try/catch, prints what it got, and is run twice on the same runtime; settings run_import_tests and export_top_level_ids are drawn per case. The complete stdout (which top levels, tests and @main functions ran, in which order, how often), the imported values and Koto::exports() are compared with a reference model of the import algorithm (run once, tests then @main, cycle = error, failed module leaves nothing cached and can be retried, completed dependencies stay cached). Second stream: scripts of 2-9 top-level assignments in every target form (plain, multi, compound, let, let-multi, map pattern, map pattern with `as`, map pattern nested in a multi-assignment, chained, inside if / for, from a function result, iterated right-hand side, let with a map pattern) run with export_top_level_ids on (every assigned name is in Koto::exports() with its final value, names local to functions are not, a later chunk on the same runtime reads them) and off (nothing is exported). Non-trivial: the graph has a cycle, a failing module, a repeated import or a file/directory conflict; a script with a form other than the plain one.",
     assumptions: &["module files are written under engine/run per shard and removed afterwards", "the text of import errors is not judged, only that the import failed"],
     shards: |_| 16,
     run_shard,
@@ -361,6 +361,153 @@ fn shard_dir(tag: &str) -> PathBuf {
     PathBuf::from(format!("/verif/engine/run/c18-modules/{}-{tag}", std::process::id()))
 }
 
+// ---------------------------------------------------------------------------------------------
+// top-level exporting: every form of top-level assignment ends up in the exports map with its final value
+
+/// a script of 2-9 top-level assignment statements in every target form, and the final values of the names
+pub fn top_level_script(data: &[u32]) -> (String, BTreeMap<String, i64>, Vec<String>) {
+    let mut s = Src::new(data);
+    let names = ["a", "b", "c", "d", "e", "g"];
+    let mut vals: BTreeMap<String, i64> = BTreeMap::new();
+    let mut forms = vec![];
+    let mut out = String::new();
+    let n = 2 + s.below(8);
+    for step in 0..n {
+        let n1 = names[s.below(names.len() as u32) as usize];
+        let n2 = loop {
+            let x = names[s.below(names.len() as u32) as usize];
+            if x != n1 {
+                break x;
+            }
+        };
+        let (v1, v2) = (s.below(50) as i64, 50 + s.below(50) as i64);
+        let form = s.below(14);
+        let form_name = match form {
+            0 => {
+                out.push_str(&format!("{n1} = {v1}\n"));
+                vals.insert(n1.into(), v1);
+                "plain"
+            }
+            1 => {
+                out.push_str(&format!("{n1}, {n2} = {v1}, {v2}\n"));
+                vals.insert(n1.into(), v1);
+                vals.insert(n2.into(), v2);
+                "multi"
+            }
+            2 if vals.contains_key(n1) => {
+                out.push_str(&format!("{n1} += {v1}\n"));
+                *vals.get_mut(n1).unwrap() += v1;
+                "compound"
+            }
+            3 => {
+                out.push_str(&format!("let {n1}: Number = {v1}\n"));
+                vals.insert(n1.into(), v1);
+                "let"
+            }
+            4 => {
+                out.push_str(&format!("let {n1}: Number, {n2}: Number = {v1}, {v2}\n"));
+                vals.insert(n1.into(), v1);
+                vals.insert(n2.into(), v2);
+                "let-multi"
+            }
+            5 => {
+                out.push_str(&format!("{{{n1}, {n2}}} = {{{n1}: {v1}, {n2}: {v2}}}\n"));
+                vals.insert(n1.into(), v1);
+                vals.insert(n2.into(), v2);
+                "map-pattern"
+            }
+            6 => {
+                out.push_str(&format!("{{key{step} as {n1}}} = {{key{step}: {v1}}}\n"));
+                vals.insert(n1.into(), v1);
+                "map-pattern-as"
+            }
+            7 => {
+                out.push_str(&format!("{n1}, {{{n2}}} = {v1}, {{{n2}: {v2}}}\n"));
+                vals.insert(n1.into(), v1);
+                vals.insert(n2.into(), v2);
+                "multi-with-map-pattern"
+            }
+            8 => {
+                out.push_str(&format!("{n1} = {n2} = {v1}\n"));
+                vals.insert(n1.into(), v1);
+                vals.insert(n2.into(), v1);
+                "chained"
+            }
+            9 => {
+                out.push_str(&format!("if true\n  {n1} = {v1}\n"));
+                vals.insert(n1.into(), v1);
+                "inside-if"
+            }
+            10 => {
+                out.push_str(&format!("for i{step} in 0..2\n  {n1} = {v1} + i{step}\n"));
+                vals.insert(n1.into(), v1 + 1);
+                "inside-for"
+            }
+            11 => {
+                out.push_str(&format!("f{step} = ||\n  inner{step} = {v2}\n  inner{step}\n{n1} = f{step}()\n"));
+                vals.insert(n1.into(), v2);
+                "from-function"
+            }
+            12 => {
+                out.push_str(&format!("{n1}, {n2} = [{v1}, {v2}]\n"));
+                vals.insert(n1.into(), v1);
+                vals.insert(n2.into(), v2);
+                "multi-iterated"
+            }
+            _ => {
+                out.push_str(&format!("let {{{n1}: Number}} = {{{n1}: {v1}}}\n"));
+                vals.insert(n1.into(), v1);
+                "let-map-pattern"
+            }
+        };
+        forms.push(form_name.to_string());
+    }
+    (out, vals, forms)
+}
+
+pub fn eval_top_level(data: &[u32]) -> Eval {
+    let (src, vals, forms) = top_level_script(data);
+    let mut ev = Eval::pass(forms.iter().any(|f| f != "plain"));
+    for f in &forms {
+        ev.classes.push(intern(&format!("top-level:{f}")));
+    }
+    for on in [true, false] {
+        let cap = Capture::default();
+        let opts = RunOpts { export_top_level: on, ..Default::default() };
+        let mut koto = koto::Koto::with_settings(kx::settings(&cap, &opts));
+        let o = kx::run_on(&mut koto, &src, &opts);
+        if !o.is_ok() {
+            ev.fail = Some(Fail::new("c18:top-level:script-failed", format!("export_top_level_ids = {on}: {o:?}\n{src}")));
+            return ev;
+        }
+        let exports: BTreeMap<String, String> = koto.exports().data().iter().map(|(k, v)| (k.value().to_string_lossy().to_string(), render(v))).collect();
+        if on {
+            for (n, v) in &vals {
+                if exports.get(n) != Some(&v.to_string()) {
+                    ev.fail = Some(Fail::new("c18:top-level:export-missing-or-stale", format!("after the script the exports map has {n} = {:?}, the final value of the top-level assignment is {v}\nexports: {exports:?}\n{src}", exports.get(n))));
+                    return ev;
+                }
+            }
+            if let Some(n) = exports.keys().find(|n| n.starts_with("inner")) {
+                ev.fail = Some(Fail::new("c18:top-level:function-local-exported", format!("{n} is local to a function but appears in the exports map\nexports: {exports:?}\n{src}")));
+                return ev;
+            }
+            // later code on the same runtime sees the names
+            let follow = format!("[{}]", vals.keys().map(|n| n.as_str()).collect::<Vec<_>>().join(", "));
+            let o2 = kx::run_on(&mut koto, &follow, &opts);
+            let want = format!("[{}]", vals.values().map(|v| v.to_string()).collect::<Vec<_>>().join(", "));
+            if o2 != kx::Outcome::Ok(want.clone()) {
+                ev.fail = Some(Fail::new("c18:top-level:follow-up", format!("a later chunk `{follow}` on the same runtime gave {o2:?}, expected {want}\n{src}")));
+                return ev;
+            }
+        } else if !exports.is_empty() {
+            ev.fail = Some(Fail::new("c18:top-level:exported-without-setting", format!("export_top_level_ids is off and the script has no `export`, but the exports map is {exports:?}\n{src}")));
+            return ev;
+        }
+    }
+    ev
+}
+
 fn run_shard(ctx: &mut Ctx) {
     let dir = shard_dir(&format!("{}", ctx.shard));
     let n = ctx.tier.pick(12_000u64, 500_000u64);
@@ -418,9 +565,15 @@ fn run_shard(ctx: &mut Ctx) {
     };
     ctx.explore_r("graphs", n, &strat, |cs| json!({"kind": "case", "case": serde_json::to_value(gen_case(&mut Src::new(cs))).unwrap()}), |cs| eval_case(&gen_case(&mut Src::new(cs)), &d2), Some(&post));
     let _ = std::fs::remove_dir_all(&dir);
+    let n = ctx.tier.pick(6_000u64, 200_000u64);
+    ctx.explore("top-level", n, &choice_stream(60), |cs| json!({"kind": "top-level", "data": cs, "src": top_level_script(cs).0}), |cs| eval_top_level(cs));
 }
 
 fn replay(case: &Value) -> Option<Fail> {
+    if case["kind"] == "top-level" {
+        let data: Vec<u32> = serde_json::from_value(case["data"].clone()).ok()?;
+        return eval_top_level(&data).fail;
+    }
     let c: Case = serde_json::from_value(case["case"].clone()).ok()?;
     let dir = shard_dir("replay");
     let r = eval_case(&c, &dir).fail;
